@@ -210,6 +210,7 @@ type dom[T comparable] struct {
 	ps    []named[func(T) bool]
 	keyI  []named[func(T) int]
 	show  func(T) string
+	wide  func(int) T // the i-th value of a wide domain (pairwise distinct, order-preserving), for long slices
 }
 
 type named[F any] struct {
@@ -272,9 +273,48 @@ func genSlice[T comparable](c *explore.Chooser, d *dom[T], maxLen int) []T {
 	return s
 }
 
+// genLong enumerates the long-slice family: length 6..maxLong x 3 base orders of pairwise distinct
+// values (ascending, descending, zigzag) x no repetition or one repetition at every pair of positions
+// i < j (s[j] = s[i]).  Exhaustive enumeration of all slices stops at length 5-7; this family crosses
+// every size at which an implementation may switch algorithm (8, 12, 16, 32, 50, 64 ...).
+func genLong[T comparable](c *explore.Chooser, d *dom[T], maxLong int) []T {
+	n := 6 + c.Choose(maxLong-5)
+	order := c.Choose(3)
+	dup := c.Choose(1 + n*(n-1)/2)
+	s := make([]T, n)
+	for k := range s {
+		v := k
+		switch order {
+		case 1:
+			v = n - 1 - k
+		case 2:
+			if k%2 == 0 {
+				v = k / 2
+			} else {
+				v = n - 1 - k/2
+			}
+		}
+		s[k] = d.wide(v)
+	}
+	if dup > 0 {
+		dup--
+		j := 1
+		for dup >= j {
+			dup -= j
+			j++
+		}
+		s[j] = s[dup]
+	}
+	return s
+}
+
 func sweepUnary[T comparable](d *dom[T], maxLen int) explore.Stats {
+	return sweepUnaryGen(d, func(c *explore.Chooser) []T { return genSlice(c, d, maxLen) })
+}
+
+func sweepUnaryGen[T comparable](d *dom[T], gen func(c *explore.Chooser) []T) explore.Stats {
 	return explore.Explore(-1, func(c *explore.Chooser) {
-		s := genSlice(c, d, maxLen)
+		s := gen(c)
 		l := fromSlice(s)
 		in := fmt.Sprint(s)
 		seen := map[string]bool{}
@@ -458,8 +498,15 @@ func sweepSort[T interface {
 	comparable
 	~int | ~string
 }](d *dom[T], maxLen int) explore.Stats {
+	return sweepSortGen(d, func(c *explore.Chooser) []T { return genSlice(c, d, maxLen) })
+}
+
+func sweepSortGen[T interface {
+	comparable
+	~int | ~string
+}](d *dom[T], gen func(c *explore.Chooser) []T) explore.Stats {
 	return explore.Explore(-1, func(c *explore.Chooser) {
-		s := genSlice(c, d.toDom(), maxLen)
+		s := gen(c)
 		got := slice.Sort(s)
 		rep.Evals++
 		rep.Validated++
@@ -498,6 +545,54 @@ func sweepBinary[T comparable](d *dom[T], maxLen int) explore.Stats {
 	}, func(c *explore.Chooser) bool { return !rep.TooMany() })
 }
 
+// sweepBinaryLong: Append and Zip at every pair of lengths 0..maxLong (pairwise distinct values).
+func sweepBinaryLong[T comparable](d *dom[T], maxLong int) explore.Stats {
+	return explore.Explore(-1, func(c *explore.Chooser) {
+		la, lb := c.Choose(maxLong+1), c.Choose(maxLong+1)
+		a, b := make([]T, la), make([]T, lb)
+		for i := range a {
+			a[i] = d.wide(i)
+		}
+		for i := range b {
+			b[i] = d.wide(la + i)
+		}
+		in := fmt.Sprint(a, b)
+		check(d, "Append", in, slice.Append(a, b), toSlice(mAppend(fromSlice(a), fromSlice(b))))
+		if la == lb {
+			var z []frt.Tuple2[T, T]
+			if ok, m := call(func() { z = slice.Zip(a, b) }); ok {
+				checkV(d.name, "Zip", in, fmt.Sprint(z), fmt.Sprint(toSlice(mZip(fromSlice(a), fromSlice(b)))))
+			} else {
+				panicked(d.name, "Zip", in, m)
+			}
+		}
+	}, func(c *explore.Chooser) bool { return !rep.TooMany() })
+}
+
+// sweepNestedLong: Concat / Collect over up to maxOuter chunks of length 0, 1 or 3 (every pattern).
+func sweepNestedLong[T comparable](d *dom[T], maxOuter int) explore.Stats {
+	return explore.Explore(-1, func(c *explore.Chooser) {
+		n := 4 + c.Choose(maxOuter-3)
+		ss := make([][]T, n)
+		k := 0
+		for i := range ss {
+			l := []int{0, 1, 3}[c.Choose(3)]
+			ss[i] = make([]T, l)
+			for j := range ss[i] {
+				ss[i][j] = d.wide(k)
+				k++
+			}
+		}
+		var ls *L[*L[T]]
+		for i := n - 1; i >= 0; i-- {
+			ls = &L[*L[T]]{fromSlice(ss[i]), ls}
+		}
+		in := fmt.Sprint(ss)
+		check(d, "Concat", in, slice.Concat(ss), toSlice(mConcat(ls)))
+		check(d, "Collect", in+" f=id", slice.Collect(func(x []T) []T { return x }, ss), toSlice(mConcat(ls)))
+	}, func(c *explore.Chooser) bool { return !rep.TooMany() })
+}
+
 func sweepNested[T comparable](d *dom[T], maxOuter, maxInner int) explore.Stats {
 	return explore.Explore(-1, func(c *explore.Chooser) {
 		n := c.Choose(maxOuter + 1)
@@ -517,16 +612,22 @@ func sweepNested[T comparable](d *dom[T], maxOuter, maxInner int) explore.Stats 
 }
 
 func main() {
-	maxLen := 5
+	maxLen, maxLong, maxChunks := 5, 20, 7
 	if len(os.Args) > 1 && os.Args[1] == "thorough" {
-		maxLen = 7
+		maxLen, maxLong, maxChunks = 7, 66, 10
 	}
-	ints := &dom[int]{name: "[]int", elems: []int{0, 1, 2}, show: strconv.Itoa,
+	ints := &dom[int]{name: "[]int", elems: []int{0, 1, 2}, show: strconv.Itoa, wide: func(i int) int { return 3*i - 7 },
 		fs:   []named[func(int) int]{{"succ", func(x int) int { return x + 1 }}, {"double", func(x int) int { return 2 * x }}, {"const7", func(int) int { return 7 }}, {"id", func(x int) int { return x }}},
 		ps:   []named[func(int) bool]{{"even", func(x int) bool { return x%2 == 0 }}, {">1", func(x int) bool { return x > 1 }}, {"true", func(int) bool { return true }}, {"false", func(int) bool { return false }}},
 		keyI: []named[func(int) int]{{"id", func(x int) int { return x }}, {"neg", func(x int) int { return -x }}, {"mod2", func(x int) int { return x % 2 }}, {"const", func(int) int { return 0 }}},
 	}
-	strs := &dom[string]{name: "[]string", elems: []string{"", "a", "b"}, show: strconv.Quote,
+	strs := &dom[string]{name: "[]string", elems: []string{"", "a", "b"}, show: strconv.Quote, wide: func(i int) string {
+		w := string(rune('a'+i/26)) + string(rune('a'+i%26))
+		if i%3 == 0 {
+			w += "x"
+		}
+		return w
+	},
 		fs: []named[func(string) string]{{"addx", func(x string) string { return x + "x" }}, {"dup", func(x string) string { return x + x }}, {"constk", func(string) string { return "k" }}, {"id", func(x string) string { return x }}},
 		ps: []named[func(string) bool]{{"empty", func(x string) bool { return x == "" }}, {">a", func(x string) bool { return x > "a" }}, {"true", func(string) bool { return true }}, {"false", func(string) bool { return false }}},
 		keyI: []named[func(string) int]{{"len", func(x string) int { return len(x) }}, {"isb", func(x string) int {
@@ -549,6 +650,15 @@ func main() {
 	st.Add(sweepBinary(strs, binLen-1))
 	st.Add(sweepNested(ints, 3, 2))
 	st.Add(sweepNested(strs, 3, 2))
+	// the long-slice family
+	st.Add(sweepUnaryGen(ints, func(c *explore.Chooser) []int { return genLong(c, ints, maxLong) }))
+	st.Add(sweepUnaryGen(strs, func(c *explore.Chooser) []string { return genLong(c, strs, maxLong) }))
+	st.Add(sweepSortGen(ints, func(c *explore.Chooser) []int { return genLong(c, ints, maxLong) }))
+	st.Add(sweepSortGen(strs, func(c *explore.Chooser) []string { return genLong(c, strs, maxLong) }))
+	st.Add(sweepBinaryLong(ints, maxLong+14))
+	st.Add(sweepBinaryLong(strs, maxLong+14))
+	st.Add(sweepNestedLong(ints, maxChunks))
+	st.Add(sweepNestedLong(strs, maxChunks))
 	// New
 	{
 		n := slice.New[int]()
@@ -560,5 +670,7 @@ func main() {
 	rep.Trans = st.Transitions
 	rep.Extra["explorer_executions"] = st.Executions
 	rep.Extra["max_len"] = maxLen
+	rep.Extra["max_len_long_family"] = maxLong
+	rep.Extra["max_chunks"] = maxChunks
 	rep.Emit()
 }
